@@ -5,7 +5,8 @@
 import Mathlib.Algebra.Order.Field.Basic
 import Mathlib.Tactic.Ring
 import Mathlib.Tactic.Linarith
-import Mathlib.Tactic.FinCases
+import Mathlib.Tactic.LinearCombination
+import Mathlib.Tactic.SplitIfs
 import TfelVerif.C56.Model
 
 namespace TfelVerif.C56
@@ -45,15 +46,15 @@ variable {K : Type} [CommRing K]
 theorem sgn_mul_sgn (s : Bool) (a b : K) : sgn s a * sgn s b = a * b := by
   cases s <;> simp [sgn]
 
-theorem V3.act_dot (p : Fin 6) (sx sy sz : Bool) (a b : V3 K) :
+theorem V3.act_dot (p : P6) (sx sy sz : Bool) (a b : V3 K) :
     (a.act p sx sy sz).dot (b.act p sx sy sz) = a.dot b := by
   simp only [V3.act, V3.dot, sgn_mul_sgn]
-  fin_cases p <;> simp only [V3.perm] <;> ring
+  cases p <;> simp only [V3.perm] <;> ring
 
-theorem V4.act_dot (p : Fin 6) (e m : Bool) (a b : V4 K) :
+theorem V4.act_dot (p : P6) (e m : Bool) (a b : V4 K) :
     (a.act p e m).dot (b.act p e m) = a.dot b := by
   simp only [V4.act, V4.dot, sgn_mul_sgn]
-  fin_cases p <;> simp only [V3.perm] <;> ring
+  cases p <;> simp only [V3.perm] <;> ring
 
 theorem V3.neg_dot (a b : V3 K) : a.neg.dot b = -(a.dot b) := by
   simp only [V3.neg, V3.dot]; ring
@@ -65,11 +66,10 @@ theorem V4.dot_neg (a b : V4 K) : a.dot b.neg = -(a.dot b) := by
   simp only [V4.neg, V4.dot]; ring
 
 /-- the hexagonal operations keep the Miller–Bravais constraint `h + k + i = 0` -/
-theorem V4.act_sum (p : Fin 6) (e m : Bool) (a : V4 K) (h : a.h + a.k + a.i = 0) :
+theorem V4.act_sum (p : P6) (e m : Bool) (a : V4 K) (h : a.h + a.k + a.i = 0) :
     (a.act p e m).h + (a.act p e m).k + (a.act p e m).i = 0 := by
-  simp only [V4.act]
-  fin_cases p <;> cases e <;> simp only [V3.perm, sgn] <;> simp <;> linear_combination (exp := 1) h <;> skip
-  all_goals first | linear_combination h | linear_combination -h
+  cases p <;> cases e <;> simp only [V4.act, V3.perm, sgn, if_true, if_false, Bool.false_eq_true] <;>
+    first | linear_combination h | linear_combination -h
 
 end ring
 
@@ -86,28 +86,71 @@ theorem V3.rep_eq_or (a : V3 Int) : a.rep = a ∨ a.rep = a.neg := by
 theorem V4.rep_eq_or (a : V4 Int) : a.rep = a ∨ a.rep = a.neg := by
   unfold V4.rep; split_ifs <;> simp
 
+theorem V3.not_lexNeg_both {a : V3 Int} (h1 : ¬ a.lexNeg) (h2 : ¬ a.neg.lexNeg) : a = ⟨0, 0, 0⟩ := by
+  obtain ⟨x, y, z⟩ := a
+  simp only [V3.lexNeg, V3.neg] at h1 h2
+  simp only [V3.mk.injEq]
+  omega
+
+theorem V3.lexNeg_not_both {a : V3 Int} (h1 : a.lexNeg) (h2 : a.neg.lexNeg) : False := by
+  obtain ⟨x, y, z⟩ := a
+  simp only [V3.lexNeg, V3.neg] at h1 h2
+  omega
+
+theorem V4.not_lexNeg_both {a : V4 Int} (h1 : ¬ a.lexNeg) (h2 : ¬ a.neg.lexNeg) : a = ⟨0, 0, 0, 0⟩ := by
+  obtain ⟨x, y, z, t⟩ := a
+  simp only [V4.lexNeg, V4.neg] at h1 h2
+  simp only [V4.mk.injEq]
+  omega
+
+theorem V4.lexNeg_not_both {a : V4 Int} (h1 : a.lexNeg) (h2 : a.neg.lexNeg) : False := by
+  obtain ⟨x, y, z, t⟩ := a
+  simp only [V4.lexNeg, V4.neg] at h1 h2
+  omega
+
+/-- a representative is not lexicographically negative -/
+theorem V3.rep_canonical (a : V3 Int) : ¬ a.rep.lexNeg := by
+  unfold V3.rep
+  split_ifs with h
+  · exact fun h2 => V3.lexNeg_not_both h h2
+  · exact h
+
+theorem V4.rep_canonical (a : V4 Int) : ¬ a.rep.lexNeg := by
+  unfold V4.rep
+  split_ifs with h
+  · exact fun h2 => V4.lexNeg_not_both h h2
+  · exact h
+
 /-- opposite vectors have the same representative -/
 theorem V3.rep_neg (a : V3 Int) : a.neg.rep = a.rep := by
-  obtain ⟨x, y, z⟩ := a
-  simp only [V3.rep, V3.neg]
-  split_ifs <;> simp_all <;> omega
+  unfold V3.rep
+  split_ifs with h1 h2 h2
+  · exact (V3.lexNeg_not_both h2 h1).elim
+  · exact V3.neg_neg a
+  · rfl
+  · have := V3.not_lexNeg_both h2 h1
+    subst this; rfl
 
 theorem V4.rep_neg (a : V4 Int) : a.neg.rep = a.rep := by
-  obtain ⟨h, k, i, l⟩ := a
-  simp only [V4.rep, V4.neg]
-  split_ifs <;> simp_all <;> omega
+  unfold V4.rep
+  split_ifs with h1 h2 h2
+  · exact (V4.lexNeg_not_both h2 h1).elim
+  · exact V4.neg_neg a
+  · rfl
+  · have := V4.not_lexNeg_both h2 h1
+    subst this; rfl
 
 /-- a representative that is the opposite of a representative is equal to it (both are zero) -/
 theorem V3.rep_eq_neg_rep {a b : V3 Int} (h : a.rep = b.rep.neg) : a.rep = b.rep := by
-  obtain ⟨x, y, z⟩ := a
-  obtain ⟨u, v, w⟩ := b
-  simp only [V3.rep, V3.neg] at h ⊢
-  split_ifs at h ⊢ <;> simp_all <;> omega
+  have h1 := V3.rep_canonical b
+  have h2 : ¬ b.rep.neg.lexNeg := h ▸ V3.rep_canonical a
+  have := V3.not_lexNeg_both h1 h2
+  rw [h, this]; rfl
 
 theorem V4.rep_eq_neg_rep {a b : V4 Int} (h : a.rep = b.rep.neg) : a.rep = b.rep := by
-  obtain ⟨x, y, z, t⟩ := a
-  obtain ⟨u, v, w, s⟩ := b
-  simp only [V4.rep, V4.neg] at h ⊢
-  split_ifs at h ⊢ <;> simp_all <;> omega
+  have h1 := V4.rep_canonical b
+  have h2 : ¬ b.rep.neg.lexNeg := h ▸ V4.rep_canonical a
+  have := V4.not_lexNeg_both h1 h2
+  rw [h, this]; rfl
 
 end TfelVerif.C56
